@@ -173,13 +173,13 @@ HARNESSES = [
     dict(name="e2e.init.lh5", src="C01/e2e.c", entry="harness_init", unwindset={"memset.0": 16386, "init_tree.0": 1022}, timeout=300, mem_gb=6,
          units=["lib/lh_new_decoder.c:lha_lh_new_init,init_ring_buffer", "lib/tree_decode.c:init_tree", "lib/bit_stream_reader.c:bit_stream_reader_init"],
          bounds="real -lh5- init, real memset; any window cell / tree cell"),
-    dict(name="e2e.lh5", src="C01/e2e.c", defines=["LENMAX=8", "MEMSET_MODEL"], flags=["--arrays-uf-always"], backend="cadical",
+    dict(name="e2e.lh5", src="C01/e2e.c", defines=["LENMAX=8", "SPLIT_INIT"], flags=["--arrays-uf-always"], backend="cadical",
          unwindset={"put.0": 18, "harness.0": 10, "harness.1": 10, "harness.2": 10, "harness.3": 10, "harness.4": 10, "harness.5": 10, "harness.6": 10, "harness.7": 10,
-                    "memset.0": 16386, "init_tree.0": 1022, "peek_bits.0": 6, "peek_bits.1": 6, "cb_read.0": 6, "lha_lh_new_read.0": 3,
-                    "copy_from_history.0": 10, "read_from_tree.0": 2, "read_length_value.0": 2, "read_temp_table.0": 2, "read_temp_table.1": 2,
-                    "read_code_table.0": 2, "read_code_table.1": 2, "read_offset_table.0": 2, "build_tree.0": 2, "add_codes_with_length.0": 2, "expand_queue.0": 2},
+                    "init_tree.0": 1022, "peek_bits.0": 6, "peek_bits.1": 3, "cb_read.0": 6, "lha_lh_new_read.0": 3,
+                    "copy_from_history.0": 10, "read_from_tree.0": 1, "read_length_value.0": 1, "read_temp_table.0": 1, "read_temp_table.1": 1,
+                    "read_code_table.0": 1, "read_code_table.1": 1, "read_offset_table.0": 1, "build_tree.0": 1, "add_codes_with_length.0": 1, "expand_queue.0": 1},
          units=["lib/lh5_decoder.c (whole): lha_lh_new_init, lha_lh_new_read, start_new_block, table readers (n=0 forms), read_from_tree, copy_from_history, bit reader"],
          timeout=600, mem_gb=6,
-         bounds="real -lh5- decoder, no stubs: two blocks with single-symbol tables (symbolic literal, symbolic copy code with length <= 8, symbolic offset symbol 0..14 and extra bits), 2 literals + 2 copies, arbitrary short reads of the callback",
-         stubs=["cb_read: symbolic stream with short reads", "memset: whole-array model for the single ring-fill call of init (byte-wise on the real memset: e2e.init.lh5)"]),
+         bounds="real -lh5- read path from the post-init state, no stubs: two blocks with single-symbol tables (symbolic literal, symbolic copy code with length <= 8, symbolic offset symbol 0..14 and extra bits), 2 literals + 2 copies; callback delivers what is asked (short reads: bits.refine)",
+         stubs=["cb_read: symbolic stream with short reads", "init: the post-init state is built directly (window all spaces, position 0, no block open, empty bit buffer, tree contents arbitrary); the real lha_lh_new_init is shown to establish it by e2e.init.lh5"]),
 ]
